@@ -166,7 +166,7 @@ impl Property for C20 {
 
     fn cases(&self, tier: Tier) -> u64 {
         match tier {
-            Tier::Quick => 100_000,
+            Tier::Quick => 200_000,
             Tier::Thorough => 3_000_000,
         }
     }
